@@ -164,6 +164,11 @@ basic::CommandSignature BuildNode::getSignature() const {
   for (auto* producer : getProducers()) {
     sig.combine(producer->getName());
   }
+  // The exclusion patterns determine what a directory node observes, so a
+  // change of the patterns must invalidate the node's result.
+  for (const auto& pattern : exclusionPatterns.getValues()) {
+    sig.combine(pattern);
+  }
   return sig;
 }
 
